@@ -7,6 +7,7 @@ import (
 	"time"
 
 	"github.com/bmeg/grip/config"
+	"github.com/bmeg/grip/gdbi"
 	"github.com/bmeg/grip/gripper"
 	"github.com/bmeg/grip/gripql"
 	"github.com/bmeg/grip/log"
@@ -50,7 +51,7 @@ func (server *GripServer) getGraph(graph string) (*gripql.Graph, error) {
 }
 
 func (server *GripServer) buildSchemas(ctx context.Context) {
-	for _, gdb := range server.dbs {
+	for _, gdb := range server.drivers() {
 		for _, name := range gdb.ListGraphs() {
 			select {
 			case <-ctx.Done():
@@ -60,7 +61,10 @@ func (server *GripServer) buildSchemas(ctx context.Context) {
 				if isSchema(name) {
 					continue
 				}
-				if _, ok := server.schemas[name]; ok {
+				server.mu.RLock()
+				_, ok := server.schemas[name]
+				server.mu.RUnlock()
+				if ok {
 					log.WithFields(log.Fields{"graph": name}).Debug("skipping build; cached schema found")
 					continue
 				}
@@ -72,7 +76,9 @@ func (server *GripServer) buildSchemas(ctx context.Context) {
 					if err != nil {
 						log.WithFields(log.Fields{"graph": name, "error": err}).Error("failed to store graph schema")
 					}
+					server.mu.Lock()
 					server.schemas[name] = schema
+					server.mu.Unlock()
 				} else {
 					log.WithFields(log.Fields{"graph": name, "error": err}).Error("failed to build graph schema")
 				}
@@ -107,7 +113,8 @@ func (server *GripServer) updateGraphMap() {
 	for k, v := range server.conf.Graphs {
 		o[k] = v
 	}
-	for n, dbs := range server.dbs {
+	started := map[string]gdbi.GraphDB{}
+	for n, dbs := range server.drivers() {
 		for _, g := range dbs.ListGraphs() {
 			o[g] = n
 			if strings.HasSuffix(g, "__mapping__") {
@@ -116,10 +123,10 @@ func (server *GripServer) updateGraphMap() {
 					log.Infof("Reading config for a gripper driver %s", g)
 					mapping, _ := gripper.GraphToConfig(graph)
 					graphName := strings.TrimSuffix(g, mappingSuffix)
-					gdb, err := StartDriver(config.DriverConfig{Gripper: &gripper.Config{Graph: graphName, Mapping: mapping}}, server.sources)
+					gdb, err := StartDriver(config.DriverConfig{Gripper: &gripper.Config{Graph: graphName, Mapping: mapping}}, server.sourceClients())
 					if err == nil {
 						driverName := fmt.Sprintf("%s__driver__", graphName)
-						server.dbs[driverName] = gdb
+						started[driverName] = gdb
 						o[graphName] = driverName
 					} else {
 						log.Errorf("Failed to start gripper: %s", graphName)
@@ -130,7 +137,23 @@ func (server *GripServer) updateGraphMap() {
 			}
 		}
 	}
+	server.mu.Lock()
+	for name, gdb := range started {
+		server.dbs[name] = gdb
+	}
 	server.graphMap = o
+	server.mu.Unlock()
+}
+
+// sourceClients returns the plugin source clients known at this moment
+func (server *GripServer) sourceClients() map[string]gripper.GRIPSourceClient {
+	server.mu.RLock()
+	defer server.mu.RUnlock()
+	out := make(map[string]gripper.GRIPSourceClient, len(server.sources))
+	for k, v := range server.sources {
+		out[k] = v
+	}
+	return out
 }
 
 func (server *GripServer) addFullGraph(ctx context.Context, graphName string, schema *gripql.Graph) error {
